@@ -16,6 +16,13 @@ static void oct(uint64_t dir, int64_t m, int64_t* x, int64_t* y) { static const 
 static void nx_3d(int64_t* x, int64_t* y) { uint64_t u = rd_u(); oct(u & 7, (int64_t)(u >> 3), x, y); }
 static void nx_gd(int64_t* x, int64_t* y) { uint64_t u = rd_u(); if (!(u & 1)) { oct((u >> 1) & 7, (int64_t)(u >> 4), x, y); return; }
   int64_t m = (int64_t)(u >> 2); *x = (u & 2) ? -m : m; uint64_t w = rd_u(); m = (int64_t)(w >> 1); *y = (w & 1) ? -m : m; }
+/* real, forms 0..7 of the specification */
+static double nx_real(void) { uint64_t t = rd_u(); union { uint64_t u; double d; uint32_t w; float f; } c; c.u = 0;
+  switch (t) { case 0: return (double)rd_u(); case 1: return -(double)rd_u(); case 2: return 1.0 / (double)rd_u(); case 3: return -1.0 / (double)rd_u();
+    case 4: { double a = (double)rd_u(); return a / (double)rd_u(); } case 5: { double a = (double)rd_u(); return -a / (double)rd_u(); }
+    case 6: for (int i = 0; i < 4; i++) c.w |= (uint32_t)nx_byte() << (8 * i); return (double)c.f;
+    case 7: for (int i = 0; i < 8; i++) c.u |= (uint64_t)nx_byte() << (8 * i); return c.d;
+    default: bad = 1; return 0; } }
 static int nx_done(void) { return rp == rend; }
 #else
 static struct oas_tok nx(uint8_t kind) { struct oas_tok t = {0, 0, 0}; if (tok_k >= tok_n) { bad = 1; return t; } t = TOK[tok_k++]; if (t.kind != kind) bad = 1; return t; }
@@ -25,6 +32,7 @@ static int64_t nx_int(void) { return (int64_t)nx(K_INT).a; }
 static void nx_2d(int64_t* x, int64_t* y) { struct oas_tok t = nx(K_2D); *x = (int64_t)t.a; *y = (int64_t)t.b; if (*x != 0 && *y != 0) bad = 1; }
 static void nx_3d(int64_t* x, int64_t* y) { struct oas_tok t = nx(K_3D); *x = (int64_t)t.a; *y = (int64_t)t.b; if (*x != 0 && *y != 0 && *x != *y && *x != -*y) bad = 1; }
 static void nx_gd(int64_t* x, int64_t* y) { struct oas_tok t = nx(K_GD); *x = (int64_t)t.a; *y = (int64_t)t.b; }
+static double nx_real(void) { union { uint64_t u; double d; } c; c.u = nx(K_REAL).a; return c.d; }
 static int nx_done(void) { return tok_k == tok_n; }
 #endif
 /* point list of types 0..4 -> vertices; (qx[0], qy[0]) is given; returns the vertex count (0 if malformed); closed: polygon (implicit vertex for the 1-delta types) */
